@@ -16,7 +16,7 @@ mkdir -p "$W/verif"
 # VMUT_REV (or the file /tmp/vmut.rev) pins the harness to a committed revision of /verif, so that a
 # long matrix run is not disturbed by work in progress; default: the working tree.
 REV="${VMUT_REV:-$(cat /tmp/vmut.rev 2>/dev/null)}"
-if [ -n "$REV" ]; then
+if [ -n "$REV" ] && [ "$REV" != "WORKTREE" ]; then
   git -C "$VERIF" archive "$REV" harness known_findings.json | tar -x -C "$W/verif"
 else
   rsync -a --exclude target "$VERIF/harness" "$W/verif/"
@@ -31,9 +31,15 @@ if ! cargo build --release --offline --manifest-path "$W/verif/harness/Cargo.tom
 fi
 for ID in "$@"; do
   t0=$(date +%s)
-  "$CARGO_TARGET_DIR/release/vcheck" "$ID" --tier "$TIER" --seed "${VERIF_SEED:-0}" --verif-dir "$W/verif" >"$W/out.$ID" 2>"$W/err.$ID"
-  rc=$?
+  case "$ID" in
+    fuzz:*) # fuzz:<target> = replay of the committed corpus of that target (strict: any tag counts)
+      "$CARGO_TARGET_DIR/release/vcheck" fuzz-replay --suite "${ID#fuzz:}" --replay "$VERIF/corpus/${ID#fuzz:}" --verif-dir "$W/verif" >"$W/out.$ID" 2>"$W/err.$ID"
+      rc=$? ;;
+    *)
+      "$CARGO_TARGET_DIR/release/vcheck" "$ID" --tier "$TIER" --seed "${VERIF_SEED:-0}" --verif-dir "$W/verif" >"$W/out.$ID" 2>"$W/err.$ID"
+      rc=$? ;;
+  esac
   t1=$(date +%s)
-  why=$(grep -m1 "^\[$ID\]" "$W/err.$ID" | cut -c1-260)
+  why=$(grep -m1 -E "^\[(C[0-9]+)\]" "$W/err.$ID" | cut -c1-260)
   echo "$(basename "$(dirname "$PATCH")")/$(basename "$PATCH") $ID exit=$rc secs=$((t1-t0)) $why"
 done
